@@ -8,8 +8,8 @@ MANIFEST = dict(
         spec="Iter.tla, IterNum.tla, IterSources.tla (+MC_Iter, Gen_Iter, Trace_Iter)",
         text="A source denotes a sequence of exact rationals (linear, range, factor, boundary, polynomial, explicit values, text, "
              "buffer and argument iterators; descriptions are rendered from the parameters by the specification). TLC checks "
-             "that the design's answers to value/advance/reset/clone (all interleavings on source and clones for counts 0..3, "
-             "plus the documented loop / past-the-end / reset / half walk / clone script over ~350 parameter sets) are acceptable "
+             "that the design's answers to value/advance/reset/clone (all interleavings of value/advance/consume/reset/clone on source and clone for counts 0..2, thorough 0..3 "
+             "and a third instance, plus the documented loop / past-the-end / reset / half walk / clone / consume script over 315 parameter sets) are acceptable "
              "to the meaning: the loop visits exactly the denoted elements, reading or advancing past the end is reported, reset "
              "and clone replay. Every transition is replayed into the real code (mpt_iterator_create/_values/_string/_linear/"
              "_boundary/_profile/_poly, mpt_meta_buffer/_arguments, mpt_values_linear/_bound); predicted doubles are compared "
@@ -54,8 +54,9 @@ def to_script(behs):
     return "\n".join(lines) + "\n"
 
 
-def run_batched(exe, behs, timeout=900):
-    """Run behaviours in growing batches; stop early when faults pile up (every hang costs the alarm time).
+def run_batched(exe, behs, timeout=1200):
+    """Run behaviours in growing batches; stop early when hangs pile up (each costs the driver's alarm
+    time).  A behaviour that hung is executed once more on its own before it counts (loaded machine).
     Returns (behaviours actually run, records)."""
     out = []
     pos = 0
@@ -64,6 +65,14 @@ def run_batched(exe, behs, timeout=900):
     while pos < len(behs):
         part = behs[pos:pos + size]
         recs, _ = vlib.run_driver(exe, to_script(part), timeout=timeout)
+        hung = sorted({r["b"] for r in recs if r.get("a") == "Hang"})
+        if hung and len(hung) <= 10:
+            again, _ = vlib.run_driver(exe, to_script([part[b] for b in hung]), timeout=timeout)
+            recs = [r for r in recs if r.get("b") not in hung]
+            for r in again:
+                if isinstance(r.get("b"), int) and r["b"] < len(hung):
+                    r["b"] = hung[r["b"]]
+                    recs.append(r)
         for r in recs:
             if isinstance(r.get("b"), int):
                 r["b"] += pos
@@ -71,7 +80,7 @@ def run_batched(exe, behs, timeout=900):
                 hangs += 1
             out.append(r)
         pos += len(part)
-        if hangs >= 5:
+        if hangs >= 3:
             break
         size = min(size * 10, 100000)
     return behs[:pos], out
